@@ -84,6 +84,10 @@ func disposeGoroutines() []string {
 // resource that was registered when a DisposeAll started was disposed exactly once.
 func runResMgr(c caseIn) out {
 	o := out{"prop_ok": true}
+	base := map[string]int{} // goroutines of package dispose that were already there (left behind by an earlier case)
+	for _, g := range disposeGoroutines() {
+		base[g]++
+	}
 	rm := dispose.NewResourceManager()
 	var mu sync.Mutex
 	dlog := []int{}
@@ -95,8 +99,8 @@ func runResMgr(c caseIn) out {
 			close(gate)
 		}
 	}
-	res := map[int]*gatedRes{}
-	registered := []int{}
+	res := []*gatedRes{} // one entry per successful registration
+	registered := []int{} // indices into res
 	mustDispose := map[int]bool{}
 	results := []interface{}{}
 	timedOut := 0
@@ -136,8 +140,8 @@ func runResMgr(c caseIn) out {
 				r.gate = gate
 			}
 			if err := rm.Register(fmt.Sprint("r", e.A), r); err == nil {
-				res[e.A] = r
-				registered = append(registered, e.A)
+				res = append(res, r)
+				registered = append(registered, len(res)-1)
 				results = append(results, "ok")
 			} else {
 				results = append(results, "err")
@@ -146,7 +150,7 @@ func runResMgr(c caseIn) out {
 			if err := rm.Unregister(fmt.Sprint("r", e.A)); err == nil {
 				results = append(results, "ok")
 				for i, x := range registered {
-					if x == e.A {
+					if res[x].id == e.A {
 						registered = append(registered[:i], registered[i+1:]...)
 						break
 					}
@@ -165,7 +169,7 @@ func runResMgr(c caseIn) out {
 			}
 			blocked := false
 			for _, x := range registered {
-				if x >= 100 && !gateOpen {
+				if res[x].id >= 100 && !gateOpen {
 					blocked = true
 				}
 			}
@@ -225,7 +229,14 @@ func runResMgr(c caseIn) out {
 	// everything has returned and the gate is open: nothing of package dispose may be left running
 	var left []string
 	for dl := time.Now().Add(3 * time.Second); ; {
-		left = disposeGoroutines()
+		left = nil
+		seen := map[string]int{}
+		for _, g := range disposeGoroutines() {
+			seen[g]++
+			if seen[g] > base[g] {
+				left = append(left, g)
+			}
+		}
 		if len(left) == 0 || time.Now().After(dl) {
 			break
 		}
@@ -234,9 +245,9 @@ func runResMgr(c caseIn) out {
 	mu.Lock()
 	dl := append([]int{}, dlog...)
 	mu.Unlock()
-	counts := map[string]int{}
-	for id, r := range res {
-		counts[fmt.Sprint(id)] = int(r.count.Load())
+	counts := [][]int{}
+	for _, r := range res {
+		counts = append(counts, []int{r.id, int(r.count.Load())})
 	}
 	o["dispose_log"], o["counts"], o["results"], o["timed_out"], o["left"], o["remaining"] = dl, counts, results, timedOut, left, rm.GetResourceCount()
 	if ok, _ := o["prop_ok"].(bool); !ok {
@@ -245,10 +256,10 @@ func runResMgr(c caseIn) out {
 	if len(left) > 0 {
 		return fail(o, "resmgr-goroutine-left", fmt.Sprintf("history %v: every call has returned and the slow resource has finished, but %d goroutine(s) of package dispose remain: %s", c.Events, len(left), strings.Join(left, "; ")))
 	}
-	for id, r := range res {
+	for i, r := range res {
 		n := int(r.count.Load())
-		if n > 1 || (mustDispose[id] && n != 1) {
-			return fail(o, "resmgr-dispose-count", fmt.Sprintf("history %v: resource %d was disposed %d time(s), want exactly 1", c.Events, id, n))
+		if n > 1 || (mustDispose[i] && n != 1) {
+			return fail(o, "resmgr-dispose-count", fmt.Sprintf("history %v: resource %d (registration #%d) was disposed %d time(s), want exactly 1", c.Events, r.id, i, n))
 		}
 	}
 	return o
